@@ -481,6 +481,10 @@ func c04NotFound(c *core.Ctx) {
 		if fn == nil {
 			continue
 		}
+		sendSites := map[ssa.Instruction]bool{}
+		for _, rs := range p.CallsThrough(fn, sendRsp, 2) {
+			sendSites[rs.Site.(ssa.Instruction)] = true
+		}
 		lookups := core.Calls(fn, sessLookup)
 		if len(lookups) != 1 {
 			c.Undecided("R5", "lookup:"+h.handler, fn.Pos(), fmt.Sprintf("expected one LocalNode.Sess lookup, found %d", len(lookups)))
@@ -525,7 +529,7 @@ func c04NotFound(c *core.Ctx) {
 						c.Check("R5", "notfound-seid:"+h.handler, x.Pos(), ok && seid == 0, "not-found response carries header SEID 0")
 						c.Check("R5", "notfound-seq:"+h.handler, x.Pos(), isReqSeq(args[3], core.Param(fn, 0)), "not-found response echoes the request's sequence number")
 						c.Check("R5", "notfound-cause:"+h.handler, x.Pos(), hasCause(x, newCause, 65), "not-found response carries cause 65 (session context not found)")
-					case f == sendRsp:
+					case f == sendRsp || sendSites[in]:
 						hasSend = true
 					case f != nil && p.IsOwn(f.Pkg()):
 						c.Check("R5", "notfound-effect:"+h.handler+":"+f.Name(), x.Pos(), false,
@@ -557,7 +561,7 @@ func c04NotFound(c *core.Ctx) {
 				return
 			}
 			f := core.Callee(ci)
-			if f == nil || !p.IsOwn(f.Pkg()) || f == sendRsp {
+			if f == nil || !p.IsOwn(f.Pkg()) || f == sendRsp || sendSites[in] {
 				return
 			}
 			if core.NilKnownAt(in.Block(), errV, false) {
